@@ -4,7 +4,11 @@ From SyModel Require Import Hardlink.
 Import ListNotations.
 
 Lemma pc_eqb_eq a b : pc_eqb a b = true -> a = b.
-Proof. destruct a, b; cbn; intro H; try discriminate; try reflexivity; apply Nat.eqb_eq in H; subst; reflexivity. Qed.
+Proof.
+  destruct a, b; cbn; intro H; try discriminate; try reflexivity;
+    try (apply andb_prop in H; destruct H as [H H']; apply Bool.eqb_prop in H');
+    apply Nat.eqb_eq in H; subst; reflexivity.
+Qed.
 Lemma pcs_eqb_eq a : forall b, pcs_eqb a b = true -> a = b.
 Proof.
   induction a as [|x a IH]; intros [|y b] H; cbn in H; try discriminate; [reflexivity|].
@@ -12,15 +16,15 @@ Proof.
 Qed.
 Lemma st_eqb_eq a b : st_eqb a b = true -> a = b.
 Proof.
-  unfold st_eqb. intro H. apply andb_prop in H. destruct H as [H H3]. apply andb_prop in H. destruct H as [H1 H2].
-  destruct a as [ma ea pa], b as [mb eb pb]. cbn in *. apply Nat.eqb_eq in H2. apply pcs_eqb_eq in H3. subst.
-  destruct ma, mb; cbn in H1; try discriminate; try reflexivity. apply Nat.eqb_eq in H1. subst. reflexivity.
+  unfold st_eqb. intro H. apply andb_prop in H. destruct H as [H1 H3].
+  destruct a as [ma pa], b as [mb pb]. cbn in *. apply pcs_eqb_eq in H3. subst.
+  destruct ma, mb; cbn in H1; try discriminate; try reflexivity; apply Nat.eqb_eq in H1; subst; reflexivity.
 Qed.
 
 Definition no_faults (sched : list (nat * bool)) : Prop := Forall (fun x => snd x = false) sched.
 
-Lemma step_in_succs fused faults s i f s' :
-  (f = true -> faults = true) -> step fused s i f = Some s' -> In s' (succs fused faults s).
+Lemma step_in_succs fused strict faults s i f s' :
+  (f = true -> faults = true) -> step fused strict s i f = Some s' -> In s' (succs fused strict faults s).
 Proof.
   intros Hf E. unfold succs. apply in_flat_map. exists i. split.
   - apply in_seq. split; [lia|]. cbn. unfold step in E. destruct (nth_error (s_pcs s) i) eqn:En; [|discriminate].
@@ -31,16 +35,16 @@ Proof.
 Qed.
 
 (* a closed set that contains a state contains everything reachable from it by any (allowed) schedule *)
-Lemma closed_contains_runs fused faults seen : closed fused faults seen = true ->
-  forall sched s, (faults = false -> no_faults sched) -> In s seen -> In (run_sched fused s sched) seen.
+Lemma closed_contains_runs fused strict faults seen : closed fused strict faults seen = true ->
+  forall sched s, (faults = false -> no_faults sched) -> In s seen -> In (run_sched fused strict s sched) seen.
 Proof.
   intro Hc. unfold closed in Hc. rewrite forallb_forall in Hc.
   induction sched as [|[i f] sched IH]; intros s Hnf Hin; [exact Hin|].
-  cbn [run_sched]. destruct (step fused s i f) as [s'|] eqn:E.
+  cbn [run_sched]. destruct (step fused strict s i f) as [s'|] eqn:E.
   - apply IH.
     + intro Hf. specialize (Hnf Hf). inversion Hnf; assumption.
     + specialize (Hc s Hin). rewrite forallb_forall in Hc.
-      assert (Hs : In s' (succs fused faults s)).
+      assert (Hs : In s' (succs fused strict faults s)).
       { eapply step_in_succs; [|exact E]. intro Ef. destruct faults; [reflexivity|]. specialize (Hnf eq_refl). inversion Hnf as [|? ? Hx]. cbn in Hx. congruence. }
       specialize (Hc s' Hs). apply existsb_exists in Hc. destruct Hc as (y & Hy & Ey). apply st_eqb_eq in Ey. subst. exact Hy.
   - apply IH; [|exact Hin]. intro Hf. specialize (Hnf Hf). inversion Hnf; assumption.
@@ -48,33 +52,33 @@ Qed.
 
 (* the reachable sets WITH failing operations and WITH the read/register gap, computed once by the kernel *)
 Definition FUEL : nat := 400000.
-Definition seen_of (n : nat) : list st := fst (explore FUEL false true [] [init n]).
+Definition seen_of (n : nat) : list st := fst (explore FUEL false true true [] [init n]).
 
 Lemma seen_facts : forall n, In n [1; 2; 3] ->
-  closed false true (seen_of n) = true /\ existsb (st_eqb (init n)) (seen_of n) = true /\
-  existsb (deadlocked false) (seen_of n) = false /\ forallb structure_ok (seen_of n) = true.
+  closed false true true (seen_of n) = true /\ existsb (st_eqb (init n)) (seen_of n) = true /\
+  existsb (deadlocked false true) (seen_of n) = false /\ forallb structure_ok (seen_of n) = true.
 Proof. intros n [<-|[<-|[<-|[]]]]; vm_compute; repeat split. Qed.
 
 Global Opaque seen_of FUEL.
 
-Lemma runs_in_seen n sched : In n [1; 2; 3] -> In (run_sched false (init n) sched) (seen_of n).
+Lemma runs_in_seen n sched : In n [1; 2; 3] -> In (run_sched false true (init n) sched) (seen_of n).
 Proof.
   intros Hn. destruct (seen_facts n Hn) as (Hc & Hi & _ & _).
   apply existsb_exists in Hi. destruct Hi as (s0 & Hs0 & E0). apply st_eqb_eq in E0.
   assert (Hnf : true = false -> no_faults sched) by (intro X; discriminate X).
-  pose proof (closed_contains_runs false true (seen_of n) Hc sched s0 Hnf Hs0) as H.
-  exact (eq_ind s0 (fun x => In (run_sched false x sched) (seen_of n)) H (init n) (eq_sym E0)).
+  pose proof (closed_contains_runs false true true (seen_of n) Hc sched s0 Hnf Hs0) as H.
+  exact (eq_ind s0 (fun x => In (run_sched false true x sched) (seen_of n)) H (init n) (eq_sym E0)).
 Qed.
 
-Theorem no_deadlock_bounded n sched : In n [1; 2; 3] -> deadlocked false (run_sched false (init n) sched) = false.
+Theorem no_deadlock_bounded n sched : In n [1; 2; 3] -> deadlocked false true (run_sched false true (init n) sched) = false.
 Proof.
   intros Hn. pose proof (runs_in_seen n sched Hn) as Hin. destruct (seen_facts n Hn) as (_ & _ & Hd & _).
-  destruct (deadlocked false (run_sched false (init n) sched)) eqn:E; [|reflexivity].
-  assert (Ht : existsb (deadlocked false) (seen_of n) = true) by (apply existsb_exists; eexists; split; [exact Hin | exact E]).
+  destruct (deadlocked false true (run_sched false true (init n) sched)) eqn:E; [|reflexivity].
+  assert (Ht : existsb (deadlocked false true) (seen_of n) = true) by (apply existsb_exists; eexists; split; [exact Hin | exact E]).
   pose proof (eq_trans (eq_sym Ht) Hd) as X. discriminate X.
 Qed.
 
-Theorem structure_bounded n sched : In n [1; 2; 3] -> structure_ok (run_sched false (init n) sched) = true.
+Theorem structure_bounded n sched : In n [1; 2; 3] -> structure_ok (run_sched false true (init n) sched) = true.
 Proof.
   intros Hn. pose proof (runs_in_seen n sched Hn) as Hin. destruct (seen_facts n Hn) as (_ & _ & _ & Hs).
   rewrite forallb_forall in Hs. apply Hs. exact Hin.
